@@ -45,7 +45,8 @@ try:
 finally:
     run(['git', 'checkout', '--', 'src'])
 dst = os.path.join('/verif/seeded', '%s-%s' % (prop, name))
-os.makedirs(dst, exist_ok=True)
+assert not os.path.exists(dst), 'a kept change of that name exists: ' + dst
+os.makedirs(dst)
 for fn in ('patch.diff', 'demo.py', 'notes.md'):
     if os.path.exists(os.path.join(sd, fn)):
         shutil.copy(os.path.join(sd, fn), os.path.join(dst, fn))
